@@ -231,10 +231,12 @@ class Limit:
             return True
         else:
             sb_idx = self._idx_to_sb_idx(index)
-            if sb_idx < 0 or sb_idx >= len(self._scoreboard):
-                return True  # Outside interval, OK
+            if sb_idx < 0:
+                return True  # Before the interval, OK
 
-            count = self._scoreboard[sb_idx]
+            # A period beyond the counters kept so far (the scheduling horizon was extended)
+            # has not been used yet: the limit applies there as everywhere else
+            count = self._scoreboard[sb_idx] if sb_idx < len(self._scoreboard) else 0
             if self.upper:
                 return count < self.value
             else:
